@@ -346,8 +346,9 @@ func (c *Ctx) Finish(rule string, assumptions []string) int {
 	sort.Strings(ids)
 	for _, id := range ids {
 		for _, k := range c.known {
-			if k.ID == id {
+			if k.ID == id && !k.Fixed && k.Class != "" {
 				fmt.Printf("KNOWN-FINDING: property=%s %s (%s; %d case(s) this run)\n", c.Prop, k.What, k.ID, c.knownHit[id])
+				break // one line per finding, however many class lines list it
 			}
 		}
 	}
